@@ -80,6 +80,7 @@ type FuncContract struct {
 	OnRecv   map[string][]*EffectSpec
 	OnSend   map[string][]*EffectSpec
 	OnCall   map[string][]*EffectSpec // callee short name -> ghost updates applied after a direct call
+	OnDefer  map[string][]*EffectSpec // callee name (short name, var:<v>) -> ghost updates applied at a defer statement
 	Assume   []*Clause                // assumed at entry without being checked at call sites (type invariants)
 }
 
@@ -664,7 +665,7 @@ func (db *ContractDB) loadContractFile(path, pkg string) error {
 				return fmt.Errorf("%s: %v", pos, err)
 			}
 			curF.Effects = append(curF.Effects, &EffectSpec{Ghost: strings.TrimPrefix(strings.TrimSpace(rest[:i]), "$"), Expr: e, Text: rest})
-		case "on-go", "on-recv", "on-send", "on-call":
+		case "on-go", "on-recv", "on-send", "on-call", "on-defer":
 			// ghost effects attached to statements of the function under contract:
 			//   on-go: $x = e            at every go statement
 			//   on-recv <chan var>: $x = e   at every receive from that channel variable (v = the value received)
@@ -673,7 +674,7 @@ func (db *ContractDB) loadContractFile(path, pkg string) error {
 			}
 			body := rest
 			ch := ""
-			if kw == "on-recv" || kw == "on-send" || kw == "on-call" {
+			if kw == "on-recv" || kw == "on-send" || kw == "on-call" || kw == "on-defer" {
 				i := strings.Index(rest, ": ")
 				if i < 0 {
 					return fmt.Errorf("%s: %s needs '<name>: $g = expr'", pos, kw)
@@ -694,6 +695,11 @@ func (db *ContractDB) loadContractFile(path, pkg string) error {
 			ef := &EffectSpec{Ghost: strings.TrimPrefix(strings.TrimSpace(body[:i]), "$"), Expr: e, Text: rest}
 			if kw == "on-go" {
 				curF.OnGo = append(curF.OnGo, ef)
+			} else if kw == "on-defer" {
+				if curF.OnDefer == nil {
+					curF.OnDefer = map[string][]*EffectSpec{}
+				}
+				curF.OnDefer[ch] = append(curF.OnDefer[ch], ef)
 			} else if kw == "on-call" {
 				if curF.OnCall == nil {
 					curF.OnCall = map[string][]*EffectSpec{}
